@@ -907,6 +907,17 @@ class Callable(BaseCallable):
 
         super().__init__(default_value, **metadata)
 
+    def validate(self, object, name, value):
+        """ Validates that the value is a Python callable.
+        """
+        if value is None:
+            if self.fast_validate[1]:
+                return value
+        elif callable(value):
+            return value
+
+        self.error(object, name, value)
+
 
 class BaseType(TraitType):
     """ A trait type whose value must be an instance of a Python type.
